@@ -848,6 +848,9 @@ int __wrap_close(int fd)
 		return __real_close(fd);
 	v = vk_open(fd);
 	if (v == NULL) {
+		/* harness rule: the library never closes a descriptor it does not hold open (a double close; in a
+		   multi-threaded program it closes whatever another thread was handed under that number meanwhile) */
+		vk_trace("X close=%d: the descriptor is not open (closed twice)", fd);
 		errno = EBADF;
 		return -1;
 	}
